@@ -106,6 +106,9 @@ fn item_list(tier: &str) -> Vec<(String, i64, &'static str)> {
             v.push((t.to_string(), 64, w));
         }
     }
+    // symlinks bind-mounted over /proc/thread-self and /proc/self that point at ANOTHER process, which holds a decoy file on the
+    // very descriptor number of the handle: callers that see the host /proc (no new mount API; with and without openat2)
+    for w in ["K-nomountapi+self-links", "E-nomountapi+self-links", "K+self-links", "E+self-links"] { v.push(("f".to_string(), 64, w)); v.push(("d".to_string(), 3, w)); }
     v
 }
 
@@ -150,9 +153,10 @@ fn run_item_inner(tier: &str, idx: usize, only: Option<&Value>) -> MResult<ItemR
         "E" => Wk::emulated()?,
         "K-oldfsconfig" => Wk::spawn(wkind, &Setup { jail: JAIL.into(), deny: vec!["fsconfig_set_string".into()], ..Default::default() })?,
         "K-nomountapi" => Wk::spawn(wkind, &Setup { jail: JAIL.into(), deny: vec!["fsopen".into(), "open_tree".into()], ..Default::default() })?,
+        "E-nomountapi" => Wk::spawn(wkind, &Setup { jail: JAIL.into(), deny: vec!["openat2".into(), "fsopen".into(), "open_tree".into()], ..Default::default() })?,
         o => return mach(format!("unknown worker kind {}", o)),
     };
-    let private_procfs = wbase != "K-nomountapi";
+    let private_procfs = !wbase.ends_with("-nomountapi");
     if hoststate == "fd-overmount" {
         // before the library is used for the first time (an open_tree clone would copy the mounts that exist at that moment)
         let pid = w.one(Op::new("getpid"))?.ret.unwrap_or(0);
@@ -163,6 +167,34 @@ fn run_item_inner(tier: &str, idx: usize, only: Option<&Value>) -> MResult<ItemR
             let (src, tgt) = (cs(&dec), cs(&t));
             if unsafe { libc::mount(src.as_ptr(), tgt.as_ptr(), std::ptr::null(), libc::MS_BIND, std::ptr::null()) } != 0 { return mach(format!("bind look-alikes over {}: errno {}", t, errno())); }
         }
+    }
+    // kept alive until the item ends: the other process the planted links point at
+    let mut _decoy_holder: Option<Wk> = None;
+    if hoststate == "self-links" {
+        let mut d = Wk::kernel()?;
+        let dpid = d.one(Op::new("getpid"))?.ret.unwrap_or(0);
+        // the decoy on the number of the handle under test, and on its neighbours
+        for n in [fdnum, fdnum + 1, 4, 5, 6, 7, 8, 9, 10] {
+            let k = format!("decoy{}", n);
+            d.one(Op::new("raw_open").path("/w/outer/parent/secret").flags(O_RDONLY).keep(&k))?;
+            d.one(Op::new("handle_at_fd").handle(&k).num(n))?;
+        }
+        let links = format!("{}/self-links", JAIL);
+        let _ = std::fs::create_dir_all(&links);
+        let _ = std::os::unix::fs::symlink(format!("{}/task/{}", dpid, dpid), format!("{}/thread-self", links));
+        let _ = std::os::unix::fs::symlink(format!("{}", dpid), format!("{}/self", links));
+        for name in ["thread-self", "self"] {
+            // a symlink can only be mounted on a symlink through O_PATH|O_NOFOLLOW descriptors of both
+            let (sc_, tc_) = (cs(&format!("{}/{}", links, name)), cs(&format!("{}/proc/{}", JAIL, name)));
+            let (sfd, tfd) = unsafe { (libc::open(sc_.as_ptr(), libc::O_PATH | libc::O_NOFOLLOW | libc::O_CLOEXEC), libc::open(tc_.as_ptr(), libc::O_PATH | libc::O_NOFOLLOW | libc::O_CLOEXEC)) };
+            if sfd < 0 || tfd < 0 { return mach("open link / mount point for the self-links state"); }
+            let (sp, tp) = (cs(&format!("/proc/self/fd/{}", sfd)), cs(&format!("/proc/self/fd/{}", tfd)));
+            let r = unsafe { libc::mount(sp.as_ptr(), tp.as_ptr(), std::ptr::null(), libc::MS_BIND, std::ptr::null()) };
+            let e = errno();
+            unsafe { libc::close(sfd); libc::close(tfd); }
+            if r != 0 { return mach(format!("bind a symlink over /proc/{}: errno {}", name, e)); }
+        }
+        _decoy_holder = Some(d);
     }
     let root_out = out(ROOT_IN);
     // keep the Root's own descriptor away from the numbers under test
@@ -184,7 +216,9 @@ fn run_item_inner(tier: &str, idx: usize, only: Option<&Value>) -> MResult<ItemR
         let ident = lstat(&xpath).ok_or_else(|| Mach("target missing".into()))?;
         let hfd = open_path(&xpath)?; // the harness's own pin on the inode (O_PATH|O_NOFOLLOW)
         w.one(Op::new("occupy_low"))?;
-        let r = w.one(Op::new(if target == "l" { "resolve_nofollow" } else { "resolve" }).root(ROOT_IN).path(&target).keep("h"))?;
+        // (with links planted over /proc/self and /proc/thread-self the emulated lookup itself is refused: the handle is then one the
+        // caller obtained by other means - a plain O_PATH open, as with Handle::from_fd)
+        let r = if hoststate == "self-links" { w.one(Op::new("raw_open").path(&format!("{}/{}", ROOT_IN, target)).flags(O_PATH).keep("h"))? } else { w.one(Op::new(if target == "l" { "resolve_nofollow" } else { "resolve" }).root(ROOT_IN).path(&target).keep("h"))? };
         if let Some(p) = &r.panic {
             // the preparatory lookup itself panicked (only possible with a disturbed host /proc): that is the library's doing
             res.violate(format!("{}:panic:setup", wkind), format!("{} preparatory resolve of {}: panic {}", wkind, target, p), json!({"engine": "handlemc", "item": idx, "target": target, "fd": fdnum, "worker": wkind}));
